@@ -80,9 +80,13 @@ pub enum Hostile {
     /// the genuine proof of a (last-)slice-root answer continued upwards with the canonical
     /// empty-subtree roots to 33 / 40 entries (taller than any tree the code supports)
     OverlongCanonicalProof,
+    /// the genuine shred at the same position of the same block content signed by the same leader
+    /// for ANOTHER slot of its window (same slice root, same last flag, valid signature)
+    ShredFromOtherSlot,
 }
 
-pub const ALL_HOSTILE: [Hostile; 15] = [
+pub const ALL_HOSTILE: [Hostile; 16] = [
+    Hostile::ShredFromOtherSlot,
     Hostile::OverlongCanonicalProof,
     Hostile::ShredOtherKey,
     Hostile::NackReplay,
@@ -118,6 +122,8 @@ struct Fixture {
     alt_flag: Vec<[alpenglow::shredder::ValidatedShred; 64]>,
     /// signature of a non-leader key over each slice's genuine commitment
     other_key_sig: Vec<[u8; 64]>,
+    /// the same slices signed by the leader for slot SLOT + 1 (same window)
+    other_slot: Vec<[alpenglow::shredder::ValidatedShred; 64]>,
 }
 
 const SLOT: u64 = 2;
@@ -141,7 +147,8 @@ fn fixture(nslices: usize) -> Fixture {
         let foreign = sign_slice(SLOT, j, j + 1 == nslices, &specs[j], &epoch.sig_sks[1]).1;
         other_key_sig.push(to_mirror::<Shred, MShred>(foreign[0].as_shred()).sig);
     }
-    Fixture { epoch, block, alt_data, alt_flag, other_key_sig }
+    let other_slot = sign_block(SLOT + 1, &specs, &sk).shreds;
+    Fixture { epoch, block, alt_data, alt_flag, other_key_sig, other_slot }
 }
 
 fn req_type_of(r: &RepairRequest) -> MReqType {
@@ -401,6 +408,13 @@ fn run_history_env(fx: &Fixture, deviations: &BTreeMap<usize, Hostile>, env: Env
                                     other => vec![other],
                                 }
                             }
+                            (Hostile::ShredFromOtherSlot, Some(m)) => match (&t, m) {
+                                (MReqType::Shred(_, sl, sh), MResponse::Shred(a, _)) => {
+                                    let s: MShred = to_mirror(fx.other_slot[*sl as usize][*sh as usize].as_shred());
+                                    vec![MResponse::Shred(a, s)]
+                                }
+                                (_, other) => vec![other],
+                            },
                             (Hostile::ShredOtherKey, Some(m)) => match (&t, m) {
                                 (MReqType::Shred(_, sl, _), MResponse::Shred(a, mut s)) => { s.sig = fx.other_key_sig[*sl as usize]; vec![MResponse::Shred(a, s)] }
                                 (_, other) => vec![other],
@@ -450,6 +464,17 @@ fn run_history_env(fx: &Fixture, deviations: &BTreeMap<usize, Hostile>, env: Env
                         }
                         // whatever is stored (and will be served to others) must carry the leader's signature
                         if alpenglow::shredder::ValidatedShred::try_new(s.as_shred().clone(), None, &fx.epoch.sig_sks[0].to_pk()).is_err() {
+                            foreign = true;
+                        }
+                    }
+                }
+            }
+            // nothing may have been filed under the block's hash in a neighbouring slot either
+            for other in [SLOT - 1, SLOT + 1] {
+                let oid: BlockId = (Slot::new(other), fx.block.hash.clone());
+                for j in 0..fx.block.shreds.len() {
+                    for i in 0..64 {
+                        if guard.get_shred(&oid, slice_index(j), ShredIndex::new(i).unwrap()).is_some() {
                             foreign = true;
                         }
                     }
@@ -684,7 +709,7 @@ pub fn c12_repair_probe(report: &Report, tier: Tier) -> usize {
         let first = 2 + nslices;
         let shred_positions: Vec<usize> = (first..=base.requests).collect();
         let mut histories: Vec<(String, BTreeMap<usize, Hostile>)> = Vec::new();
-        for h in [Hostile::ShredCorrupted, Hostile::ShredOtherKey] {
+        for h in [Hostile::ShredCorrupted, Hostile::ShredOtherKey, Hostile::ShredFromOtherSlot] {
             histories.push((format!("{h:?}@every-shred-request"), shred_positions.iter().map(|p| (*p, h)).collect()));
             histories.push((format!("{h:?}@every-second-shred-request"), shred_positions.iter().step_by(2).map(|p| (*p, h)).collect()));
             let singles: Vec<usize> = match tier {
@@ -701,10 +726,16 @@ pub fn c12_repair_probe(report: &Report, tier: Tier) -> usize {
             let replay = json!({"oracle": "repair-admission", "slices": nslices, "hostile": d.iter().map(|(p, h)| format!("{h:?}#{p}")).collect::<Vec<_>>()});
             if let Some(p) = &o.panic {
                 report.violation(format!("C12:repair-admission-panics:{name}"), p.clone(), replay);
+            } else if !o.stored && d.len() <= 1 {
+                report.violation(
+                    format!("C12:replayed-or-unsigned-shred-consumes-the-repair-request:{name}"),
+                    format!("{nslices}-slice block: one shred request was answered with a shred that must be rejected ({name}); every other request was answered correctly, yet the block was never stored - the bad answer was taken as the answer"),
+                    replay,
+                );
             } else if o.foreign_stored {
                 report.violation(
                     format!("C12:shred-without-leader-signature-admitted-through-repair:{name}"),
-                    format!("{nslices}-slice block: after repair answers whose shreds differ from the genuine ones only in the signature, the blockstore holds (and would serve) shreds under the block's id that do not verify under the leader's key"),
+                    format!("{nslices}-slice block: after repair answers carrying shreds that must be rejected (signature altered or foreign, or a shred of another slot), the blockstore holds (and would serve) such shreds"),
                     replay,
                 );
             }
